@@ -251,5 +251,48 @@ prop('C05',
                 'resistance, and that the resulting scalars do not coincide by accident (probability 1/q) -- outside the logic; reduced by the injectivity lemmas to exactly that. ' + SIGN_ASSUMED,
      assumptions=['collision resistance of H1, H2, H4, H5 (cross-session rejection is decided only up to it)'],
      design_ref='DESIGN.md section 4 C05')
+prop('C17', units=['frost_rerandomized'],
+     level_text='For every RandomizedCiphersuite in the default world (abstract field/group; hash_randomizer an arbitrary deterministic function that may refuse), every group key, '
+                'key package, public key package, signing package, seed / rng stream and explicit randomizer (zero included): Verus proves the real text of '
+                'frost-rerandomized/src/lib.rs -- RandomizedParams::from_randomizer / regenerate_from_seed_and_commitments / new_from_commitments, '
+                'Randomizer::regenerate_from_seed_and_commitments / new_from_commitments, Randomize for KeyPackage and for PublicKeyPackage, sign, '
+                'sign_with_randomizer_seed, aggregate, aggregate_custom -- against contracts that state the whole result: randomizer == '
+                'hash_randomizer(seed || encode_group_commitment_list(commitments)) (GroupError when a commitment is the identity, SerializationError when the hash refuses); '
+                'parameters == (alpha, alpha*G, Y + alpha*G); the coordinator draws exactly Ns bytes and returns the SAME function of (seed, commitments) a participant '
+                'regenerates; key package -> (s_i + alpha, Y_i + alpha*G, Y + alpha*G, same identifier and threshold); public key package -> every share + alpha*G, key '
+                'Y + alpha*G, same threshold; sign / sign_with_randomizer_seed == frost-core round2::sign (spec_sign) on the randomized key package; aggregate / '
+                'aggregate_custom == frost-core aggregate / aggregate_custom (agg_result_is: refusals, released signature verifies, culprit list) on the randomized '
+                'public key package, and a released signature verifies under Y + alpha*G.  Machine-checked theorems (lemmas/vprops_rerand.rs): regenerated parameters '
+                'equal the coordinator\'s for every stream and commitment set; the randomized shares lie on f + alpha with group key (f + alpha)(0)*G, participant and '
+                'coordinator agree on every shifted share; Y + alpha*G != Y iff alpha != 0; with one challenge c != 0 and alpha != 0 no (R, z) satisfies the verification '
+                'equation under both keys; thresholds are enforced unchanged (sign refuses < t commitments, aggregate refuses < t shares); an honest randomized share '
+                'passes the coordinator\'s check against the shifted verifying share, and the culprits are exactly the frost-core culprits on the shifted keys; the '
+                'preimage seed || enc(list) is injective in (seed, signer set, every commitment) for seeds of one length, so equal randomizers from different inputs are a '
+                'collision of hash_randomizer.',
+     level_note='Scope: decided for the five default-world suites (ed25519, ed448, p256, ristretto255, secp256k1): the frost-core contracts this unit imports (round2::sign, '
+                'aggregate, aggregate_custom, encode_group_commitments, constructors) are proved in unit frost_core under default_world::<C>() (lemmas/vworld.rs: the suite does '
+                'not override the optional Ciphersuite hooks).  The Taproot suite overrides those hooks and also implements RandomizedCiphersuite: Taproot + rerandomization is '
+                'NOT covered by this proof.  NOT decided: "changing the seed or the commitment set changes the randomizer" and "the signature does not verify under the original '
+                'key" with each key\'s own challenge are statements about hash_randomizer / H2 separating inputs (collision freeness); they are reduced by machine-checked lemmas '
+                'to exactly those hash statements (equal randomizers from different equal-length inputs = a hash_randomizer collision; validity under both keys forces '
+                'h*(c\'*(Y + alpha*G)) == h*(c*Y) for the two H2 outputs c\', c), not proved.  The preimage layout is NOT injective across seeds of different lengths (a longer seed can '
+                'absorb whole encoded items); new_from_commitments always draws Ns bytes, regenerate accepts any length.  "signing and aggregation succeed for any valid signer '
+                'set" is decided as: the randomized key set is a consistent key set for f + alpha (so the frost-core correctness statement C01 applies verbatim) and every honest '
+                'randomized share passes its check; the end-to-end composition lives with C01.  Not covered: the deprecated, cfg(feature = "serialization") functions '
+                'Randomizer::new / from_randomizer_and_signing_package / RandomizedParams::new (SigningPackage-based derivation through the serde codec; dropped by rule E1), '
+                'Randomizer::serialize / deserialize.  Assumed: the outlined std idiom [a, b].concat() == a ++ b (operand holes: which operands, in which order, is decided), '
+                'map+collect into a BTreeMap (vstdx helper), T9 ghost-stream model of fill_bytes, vstd specs of vec![0; n] and BTreeMap::clone / iter.',
+     trusted_base=['hash_randomizer is a deterministic function of its input bytes (uninterpreted spec_hash_randomizer; no injectivity or range property is assumed)',
+                   'frost-core contracts used as assumptions here and proved in unit frost_core (default world): round2::sign, aggregate, aggregate_custom, '
+                   'round1::encode_group_commitments, KeyPackage::new, PublicKeyPackage::new_internal, VerifyingShare::new/to_element, SigningShare::new/to_scalar, VerifyingKey::new/to_element',
+                   'extraction of frost-rerandomized/src/lib.rs: path rewrites frost_core:: -> crate::, alloc:: -> std::, `pub use frost_core;` removed; cfg(feature)/cfg(test) items dropped (units/frost_rerandomized.py)',
+                   'outlined std idiom `[a, b].concat()` on byte slices equals concatenation in order (assumed, operand holes)'],
+     assumptions=['default world: the ciphersuite does not override the optional frost-core hooks (excludes frost-secp256k1-tr: Taproot + rerandomization is not covered)',
+                  'T5 hash_randomizer / H2 are deterministic functions of their input; collision freeness is NOT assumed, so "different inputs give different randomizers" and '
+                  '"not valid under the original key" are reduced to hash statements, not decided',
+                  'T4 scalar/element codecs are canonical and of fixed length (used only by the preimage-injectivity lemmas)',
+                  'T9 ghost-stream model of the coordinator\'s rng (fill_bytes writes stream[pos..pos+len))',
+                  'end-to-end "any valid signer set produces a verifying signature" rests on the frost-core correctness statement (C01) applied to the key set for f + alpha'],
+     design_ref='DESIGN.md section 4 C17')
 
 prop('CDEV', level_text='dev', level_note='dev', claimed=False)
